@@ -38,6 +38,8 @@ const SCHEMAS = [
   S('assign', 'o[(o = E.o2, k)] += @Y@'),
   S('assign', 'o.q[i++] += @Y@'),
   S('assign', 'g(1).q[h(k)] += @Y@'),
+  S('assign', '(x) += @Y@'),
+  S('assign', '(o.p) += @Y@'),
   S('ctl', 'x -= @Y@'),
   S('plus', 'x = x + @Y@'),
   S('tpl', '`${@X@}`'),
@@ -45,6 +47,10 @@ const SCHEMAS = [
   S('tpl', '`${1}${@X@}`'),
   S('tpl', 'h`p${@X@}`'),
   S('tpl', '`${@X@}${`${@Y@}`}`'),
+  S('tpl', 'o.tag`p${@X@}`'),
+  S('tpl', 'String.raw`p\\n${@X@}`'),
+  S('method', 'new o.q.concat(@X@)'),
+  S('method', 'new (a.concat(@X@).constructor)(@Y@)'),
   S('tpl', '`l1\n${@X@}\nl3`'),
   S('tpl', '`${a, @X@}`'),
   S('tpl', '`${@X@}${a, b}`'),
@@ -124,6 +130,11 @@ const SCHEMAS = [
   S('proto', "X.prototype.concat.apply('lit', ['l', @X@])"),
   S('proto', "X.prototype.trim.call('lit')"),
   S('proto', 'X.prototype.concat.apply(a, [, @X@])'),
+  S('proto', "X.prototype.concat.call('lit', undefined)"),
+  S('proto', "X.prototype.concat.call('lit', null, @X@)"),
+  S('proto', "X.prototype.concat.apply('lit', [undefined, @X@])"),
+  S('proto', 'X.prototype.concat.apply(a, [[b, f()], @X@])'),
+  S('proto', 'X.prototype.concat.call(a, @X@).concat(@Y@)'),
   S('proto', 'o.concat.call(a, @X@)'),
   S('proto', 'g().concat.call(a, @X@)'),
   S('proto', 'String.prototype.concat.call(a, @X@)'),
@@ -219,7 +230,7 @@ const SCOPES = {
 }
 
 // spread sources (slot S): every expression kind that may follow `...`
-const SPREADS = ['arr', 'arr || []', 'o.arr ?? arr', 'c ? arr : []', '[a, f()]', 'h(arr)', 'arr.slice(0)', 'E.iter(arr)', 'a']
+const SPREADS = ['arr', "'xy'", "'l' + 'm'", '`t${a}`', 'arr || []', 'o.arr ?? arr', 'c ? arr : []', '[a, f()]', 'h(arr)', 'arr.slice(0)', 'E.iter(arr)', 'a']
 
 function fill (tpl, pick) {
   return tpl.replace(/@([XYZS])@/g, (_, s) => pick[s] === undefined ? (s === 'S' ? 'arr' : 'a') : pick[s])
